@@ -4,8 +4,9 @@ The bounded-tier descriptions stay in the property modules."""
 DED = 'contract-based deductive verification: VCs generated from the real AST under sidecar contracts (pv/vc, pv/contracts) and discharged by z3 (cvc5 for z3 unknowns)'
 
 META = {
- 'C01': dict(technique=DED + ': pointwise extended-real contract of Factor.__sub__ (the -inf-aware message division); exactness of BP decided by a bounded run-time contract against the explicit joint',
+ 'C01': dict(technique=DED + ': pointwise extended-real contract of Factor.__sub__ (the -inf-aware message division); final normalisation of belief_propagation under the calibration lemma; exactness of BP decided by a bounded run-time contract against the explicit joint',
              ded='Factor.__sub__ under a pointwise extended-real contract: a structural zero in the divisor leaves the dividend unchanged, -inf persists, NaN only from NaN or inf-inf operands (for every cell value). '
+                 'belief_propagation: given the calibration lemma L-cal (ASSUMED: after the message schedule all clique beliefs share one exp-sum Z), every clique table is exp(belief + log(total) - log Z), is stored once per clique and sums to self.total; with logZ=True the result is log Z. '
                  'Sum-product exactness on arbitrary junction trees is not SMT-dischargeable (inductive sub-tree invariant over exponentially large sums) and is decided bounded.',
              trusted=['numpy IEEE semantics of ==, unary -, +, np.where on one arbitrary cell (written out in pv/contracts/extsub.py)', 'alignment of operand axes (C14 invariant)']),
  'C02': dict(technique=DED + ': call-site contracts of GraphicalModel.project (requested tuple reaches Factor.project on both paths, total passed to VE) and the normalisation idiom of variable elimination; equality with the explicit joint decided bounded',
